@@ -276,6 +276,62 @@ class TBase:
         self.notes[key] = value
 
 
+# --------------------------------------------------------------------------------------
+# signatures of the PRIVATE functions a scenario enters by (or calls directly): a contract written against `f(gradients, mask)` says
+# nothing about `f(self, gradients)` - a call would bind the arguments to other parameters and whatever happens then is an artefact.
+# The parameter lists are recorded when the obligation lock is updated (contracts/SIGNATURES.lock.json); a private function whose
+# parameter list differs from the recorded one is 'gone' for the harness: using it raises ContractUnbound (lost proof, never a verdict).
+_SIG_PATH = os.path.join(os.path.dirname(os.path.dirname(os.path.abspath(__file__))), "contracts", "SIGNATURES.lock.json")
+try:
+    _SIG_LOCK = json.load(open(_SIG_PATH))
+except (OSError, ValueError):
+    _SIG_LOCK = {}
+
+
+def _is_private(qualname):
+    return any(p.startswith("_") and not (p.startswith("__") and p.endswith("__")) for p in qualname.split("."))
+
+
+def _signature_text(obj):
+    import inspect
+
+    try:
+        sig = inspect.signature(obj)
+    except (TypeError, ValueError):
+        return None
+    # names, kinds and ANNOTATIONS of the parameters and of the result (the package is annotated throughout; a private function whose
+    # result is now `_Evaluation` instead of `tuple[Results, ...]` has another interface even if its name and parameters stayed);
+    # default values are left out: a changed default is a change of behaviour, which the obligations are there to judge
+    def ann(a):
+        return "" if a is inspect.Signature.empty else ": " + (a if isinstance(a, str) else getattr(a, "__name__", repr(a))).replace(" ", "")
+
+    ret = "" if sig.return_annotation is inspect.Signature.empty else " -> " + (sig.return_annotation if isinstance(sig.return_annotation, str) else getattr(sig.return_annotation, "__name__", repr(sig.return_annotation))).replace(" ", "")
+    return "(" + ", ".join(("*" if p.kind == p.VAR_POSITIONAL else "**" if p.kind == p.VAR_KEYWORD else "") + p.name + ("/kw" if p.kind == p.KEYWORD_ONLY else "") + ann(p.annotation)
+                           for p in sig.parameters.values()) + ")" + ret
+
+
+def signature_guard(modname, qualname, obj):
+    """obj itself, or a _Gone stand-in if the parameter list of a private callable is not the one the contracts were written against."""
+    if not _is_private(qualname) or isinstance(obj, type) or not callable(obj):
+        return obj
+    text = _signature_text(obj)
+    if text is None:
+        return obj
+    key = "%s:%s" % (modname, qualname)
+    rec = os.environ.get("ROPTVC_RECORD_SIGNATURES")
+    if rec:
+        try:
+            with open(os.path.join(rec, "%d.jsonl" % os.getpid()), "a") as fh:
+                fh.write(json.dumps([key, text]) + "\n")
+        except OSError:
+            pass
+        return obj
+    was = _SIG_LOCK.get(key)
+    if was is not None and was != text:
+        return _Gone("the parameter list of the private function %s changed from %s to %s: the contract written against the former does not bind" % (key, was, text))
+    return obj
+
+
 class _Gone:
     """Stands for a function/class under contract that no longer exists under that name: any use raises ContractUnbound."""
 
@@ -419,7 +475,7 @@ class TSym(TBase):
         self._sh = sh
         info = sh.info(modname, qualname)
         self.engine.note_function(info, stubs)
-        return sh.get(modname, qualname)
+        return signature_guard(modname, qualname, sh.get(modname, qualname))
 
     def under_contract(self, sh, modname, qualname, stubs=None):
         try:
@@ -430,7 +486,7 @@ class TSym(TBase):
             self.engine.note_gone(modname, qualname)
             return _Gone(str(exc))
         self.engine.note_function(info, stubs)
-        return sh.get(modname, qualname)
+        return signature_guard(modname, qualname, sh.get(modname, qualname))
 
     # --- logic ------------------------------------------------------------------------
     def assume(self, cond):
@@ -669,13 +725,13 @@ class TConc(TBase):
         return v
 
     def func(self, modname, qualname, stubs=None, also=()):
-        return extract.real_get(modname, qualname)
+        return signature_guard(modname, qualname, extract.real_get(modname, qualname))
 
     def shadow(self, modules, stubs=None):
         return None
 
     def under_contract(self, sh, modname, qualname, stubs=None):
-        return extract.real_get(modname, qualname)
+        return signature_guard(modname, qualname, extract.real_get(modname, qualname))
 
     def assume(self, cond):
         if not bool(cond):
